@@ -37,7 +37,7 @@ def import_(sid):
     meta = json.load(open(os.path.join(src, "meta.json")))
     confirm = open(os.path.join(src, "confirm.txt")).read() if os.path.exists(os.path.join(src, "confirm.txt")) else ""
     meta["written_by"] = "sub-agent that saw only the property text and a scratch worktree (nothing from /verif)"
-    meta["base_commit"] = {"p": "7e5edd0", "q": "7e5edd0", "r": "066252b", "s": "066252b", "t": "066252b", "u": "066252b", "v": "066252b", "w": "066252b", "m": "066252b", "n": "066252b"}.get(sid[-1:], "9168f63")
+    meta["base_commit"] = {"p": "7e5edd0", "q": "7e5edd0", "r": "066252b", "s": "066252b", "t": "066252b", "u": "066252b", "v": "066252b", "w": "066252b", "m": "066252b", "n": "066252b", "j": "066252b", "k": "066252b"}.get(sid[-1:], "9168f63")
     meta["confirmed_by_hand"] = {
         "what_was_run": "tools/confirm_seeded.sh %s: demo.py on unchanged /repo and on the changed worktree; "
                         "the repository's whole suite on the changed worktree" % sid,
